@@ -218,7 +218,9 @@ impl OutputManager {
 
     /// Finalize the generation process
     pub fn finalize_generation(&mut self, generated_files: &[String]) -> Result<(), OutputError> {
-        self.prepare_output_directory()?;
+        // The generators have created and written the directory by now; probing it for write
+        // access again would create and delete a file in it on every build, also when the
+        // cache said that nothing has to be generated
 
         // Register all generated files as managed
         for file in generated_files {
